@@ -31,8 +31,7 @@ class H2Peer:
                                          normalize_outbound_headers=False, validate_inbound_headers=validate_inbound,
                                          normalize_inbound_headers=False)
         self.conn = h2.connection.H2Connection(conf)
-        if settings:
-            self.conn.update_settings(settings)
+        self.initial_settings = dict(settings or {})
         self.streams = collections.OrderedDict()
         self.order = []  # (stream id, event kind) in arrival order
         self.error = None
@@ -40,9 +39,13 @@ class H2Peer:
         self.out = bytearray()  # bytes to put on the wire
         self.max_open = 0
         self.auto_ack = True
+        self.unacked = []  # (length, stream id) of received DATA not yet acknowledged (lazy receivers)
 
     def start(self):
         self.conn.initiate_connection()
+        if self.initial_settings:
+            # a second SETTINGS frame right after the preface: h2 applies it once the peer has ACKed it
+            self.conn.update_settings(self.initial_settings)
         self.flush()
 
     def flush(self) -> bytes:
@@ -55,6 +58,16 @@ class H2Peer:
         d = bytes(self.out)
         self.out.clear()
         return d
+
+    def ack_all(self):
+        """acknowledge everything received so far (emits WINDOW_UPDATE frames)"""
+        for n, sid in self.unacked:
+            try:
+                self.conn.acknowledge_received_data(n, sid)
+            except Exception:
+                pass
+        self.unacked = []
+        self.flush()
 
     def rec(self, sid) -> StreamRec:
         if sid not in self.streams:
@@ -92,6 +105,8 @@ class H2Peer:
             self.order.append((sid, "data"))
             if self.auto_ack:
                 self.conn.acknowledge_received_data(ev.flow_controlled_length, sid)
+            else:
+                self.unacked.append((ev.flow_controlled_length, sid))
         elif isinstance(ev, h2.events.TrailersReceived):
             self.rec(sid).trailers = list(ev.headers)
             self.order.append((sid, "trailers"))
